@@ -906,3 +906,96 @@ package analysis
 //@   ensures forall i in 0..len(pi.Parameters) :: len(pi.Parameters[i].Enum) > 0 ==> ("#" + slashpath.Join("/paths", jsonpointer.Escape(path), "parameters", strconv.Itoa(i))) in dom(s.enums.parameters) && ("#" + slashpath.Join("/paths", jsonpointer.Escape(path), "parameters", strconv.Itoa(i))) in dom(s.enums.allEnums)
 //@   loop 1: invariant s != nil && idxMaps(s) && s.spec == old(s.spec) && s.enums.parameters == old(s.enums.parameters) && s.enums.headers == old(s.enums.headers) && s.enums.schemas == old(s.enums.schemas) && s.enums.allEnums == old(s.enums.allEnums)
 //@   loop 1: invariant forall j in 0..idx :: len(op.Parameters[j].Enum) > 0 ==> ("#" + slashpath.Join("/paths", jsonpointer.Escape(path), "parameters", strconv.Itoa(j))) in dom(s.enums.parameters) && ("#" + slashpath.Join("/paths", jsonpointer.Escape(path), "parameters", strconv.Itoa(j))) in dom(s.enums.allEnums)
+// ---------------------------------------------------------------- analyzer.go: the reference index (C11)
+// generated by /verif/tools/gen_refs_schema.py
+//@ fun suri(prefix string, name string) string = path.Join(prefix, jsonpointer.Escape(name))
+// schRef(k, r, sv, prefix, name): the schema value sv, indexed under prefix/name, or one of its sub-schemas at any depth,
+// holds the non-empty $ref r at JSON pointer k (ten schema-bearing positions)
+//@ fun schRef(k string, r spec.Ref, sv spec.Schema, prefix string, name string) bool = (k == "#" + suri(prefix, name) && r == sv.Ref && r.String() != "") || (exists n in dom(sv.Definitions) :: schRef(k, r, sv.Definitions[n], path.Join(suri(prefix, name), "definitions"), n)) || (exists n in dom(sv.Properties) :: schRef(k, r, sv.Properties[n], path.Join(suri(prefix, name), "properties"), n)) || (exists n in dom(sv.PatternProperties) :: schRef(k, r, sv.PatternProperties[n], path.Join(suri(prefix, name), "patternProperties"), n)) || (exists i in 0..len(sv.AllOf) :: schRef(k, r, sv.AllOf[i], path.Join(suri(prefix, name), "allOf"), strconv.Itoa(i))) || (exists i in 0..len(sv.AnyOf) :: schRef(k, r, sv.AnyOf[i], path.Join(suri(prefix, name), "anyOf"), strconv.Itoa(i))) || (exists i in 0..len(sv.OneOf) :: schRef(k, r, sv.OneOf[i], path.Join(suri(prefix, name), "oneOf"), strconv.Itoa(i))) || (sv.Not != nil && schRef(k, r, *sv.Not, suri(prefix, name), "not")) || (sv.AdditionalProperties != nil && sv.AdditionalProperties.Schema != nil && schRef(k, r, *sv.AdditionalProperties.Schema, suri(prefix, name), "additionalProperties")) || (sv.AdditionalItems != nil && sv.AdditionalItems.Schema != nil && schRef(k, r, *sv.AdditionalItems.Schema, suri(prefix, name), "additionalItems")) || (sv.Items != nil && sv.Items.Schema != nil && schRef(k, r, *sv.Items.Schema, suri(prefix, name), "items")) || (sv.Items != nil && (exists i in 0..len(sv.Items.Schemas) :: schRef(k, r, sv.Items.Schemas[i], path.Join(suri(prefix, name), "items"), strconv.Itoa(i))))
+
+//@ func (s *Spec) analyzeSchema(name, schema, prefix)
+//@   aspect refs
+//@   requires s != nil && schema != nil && idxMaps(s)
+//@   modifies map s.allSchemas, map s.allOfs, map s.references.schemas, map s.references.allRefs, map s.patterns.schemas, map s.patterns.allPatterns, map s.enums.schemas, map s.enums.allEnums
+//@   ensures forall k string :: forall r spec.Ref :: schRef(k, r, *schema, prefix, name) ==> k in dom(s.references.schemas) && k in dom(s.references.allRefs)
+//@   ensures forall k string :: old(k in dom(s.references.schemas)) ==> k in dom(s.references.schemas)
+//@   ensures forall k string :: old(k in dom(s.references.allRefs)) ==> k in dom(s.references.allRefs)
+//@   loop 1: invariant forall k string :: old(k in dom(s.references.schemas)) ==> k in dom(s.references.schemas)
+//@   loop 1: invariant forall k string :: old(k in dom(s.references.allRefs)) ==> k in dom(s.references.allRefs)
+//@   loop 1: invariant schema.Ref.String() != "" ==> ("#" + suri(prefix, name)) in dom(s.references.schemas) && ("#" + suri(prefix, name)) in dom(s.references.allRefs)
+//@   loop 1: invariant (forall n in seen :: forall k string :: forall r spec.Ref :: schRef(k, r, schema.Definitions[n], path.Join(suri(prefix, name), "definitions"), n) ==> k in dom(s.references.schemas) && k in dom(s.references.allRefs))
+//@   loop 1: invariant forall n in seen :: n in dom(schema.Definitions)
+//@   loop 2: invariant forall k string :: old(k in dom(s.references.schemas)) ==> k in dom(s.references.schemas)
+//@   loop 2: invariant forall k string :: old(k in dom(s.references.allRefs)) ==> k in dom(s.references.allRefs)
+//@   loop 2: invariant schema.Ref.String() != "" ==> ("#" + suri(prefix, name)) in dom(s.references.schemas) && ("#" + suri(prefix, name)) in dom(s.references.allRefs)
+//@   loop 2: invariant (forall n in dom(schema.Definitions) :: forall k string :: forall r spec.Ref :: schRef(k, r, schema.Definitions[n], path.Join(suri(prefix, name), "definitions"), n) ==> k in dom(s.references.schemas) && k in dom(s.references.allRefs))
+//@   loop 2: invariant (forall n in seen :: forall k string :: forall r spec.Ref :: schRef(k, r, schema.Properties[n], path.Join(suri(prefix, name), "properties"), n) ==> k in dom(s.references.schemas) && k in dom(s.references.allRefs))
+//@   loop 2: invariant forall n in seen :: n in dom(schema.Properties)
+//@   loop 3: invariant forall k string :: old(k in dom(s.references.schemas)) ==> k in dom(s.references.schemas)
+//@   loop 3: invariant forall k string :: old(k in dom(s.references.allRefs)) ==> k in dom(s.references.allRefs)
+//@   loop 3: invariant schema.Ref.String() != "" ==> ("#" + suri(prefix, name)) in dom(s.references.schemas) && ("#" + suri(prefix, name)) in dom(s.references.allRefs)
+//@   loop 3: invariant (forall n in dom(schema.Definitions) :: forall k string :: forall r spec.Ref :: schRef(k, r, schema.Definitions[n], path.Join(suri(prefix, name), "definitions"), n) ==> k in dom(s.references.schemas) && k in dom(s.references.allRefs))
+//@   loop 3: invariant (forall n in dom(schema.Properties) :: forall k string :: forall r spec.Ref :: schRef(k, r, schema.Properties[n], path.Join(suri(prefix, name), "properties"), n) ==> k in dom(s.references.schemas) && k in dom(s.references.allRefs))
+//@   loop 3: invariant (forall n in seen :: forall k string :: forall r spec.Ref :: schRef(k, r, schema.PatternProperties[n], path.Join(suri(prefix, name), "patternProperties"), n) ==> k in dom(s.references.schemas) && k in dom(s.references.allRefs))
+//@   loop 3: invariant forall n in seen :: n in dom(schema.PatternProperties)
+//@   loop 4: invariant forall k string :: old(k in dom(s.references.schemas)) ==> k in dom(s.references.schemas)
+//@   loop 4: invariant forall k string :: old(k in dom(s.references.allRefs)) ==> k in dom(s.references.allRefs)
+//@   loop 4: invariant schema.Ref.String() != "" ==> ("#" + suri(prefix, name)) in dom(s.references.schemas) && ("#" + suri(prefix, name)) in dom(s.references.allRefs)
+//@   loop 4: invariant (forall n in dom(schema.Definitions) :: forall k string :: forall r spec.Ref :: schRef(k, r, schema.Definitions[n], path.Join(suri(prefix, name), "definitions"), n) ==> k in dom(s.references.schemas) && k in dom(s.references.allRefs))
+//@   loop 4: invariant (forall n in dom(schema.Properties) :: forall k string :: forall r spec.Ref :: schRef(k, r, schema.Properties[n], path.Join(suri(prefix, name), "properties"), n) ==> k in dom(s.references.schemas) && k in dom(s.references.allRefs))
+//@   loop 4: invariant (forall n in dom(schema.PatternProperties) :: forall k string :: forall r spec.Ref :: schRef(k, r, schema.PatternProperties[n], path.Join(suri(prefix, name), "patternProperties"), n) ==> k in dom(s.references.schemas) && k in dom(s.references.allRefs))
+//@   loop 4: invariant (forall i in 0..idx :: forall k string :: forall r spec.Ref :: schRef(k, r, schema.AllOf[i], path.Join(suri(prefix, name), "allOf"), strconv.Itoa(i)) ==> k in dom(s.references.schemas) && k in dom(s.references.allRefs))
+//@   loop 5: invariant forall k string :: old(k in dom(s.references.schemas)) ==> k in dom(s.references.schemas)
+//@   loop 5: invariant forall k string :: old(k in dom(s.references.allRefs)) ==> k in dom(s.references.allRefs)
+//@   loop 5: invariant schema.Ref.String() != "" ==> ("#" + suri(prefix, name)) in dom(s.references.schemas) && ("#" + suri(prefix, name)) in dom(s.references.allRefs)
+//@   loop 5: invariant (forall n in dom(schema.Definitions) :: forall k string :: forall r spec.Ref :: schRef(k, r, schema.Definitions[n], path.Join(suri(prefix, name), "definitions"), n) ==> k in dom(s.references.schemas) && k in dom(s.references.allRefs))
+//@   loop 5: invariant (forall n in dom(schema.Properties) :: forall k string :: forall r spec.Ref :: schRef(k, r, schema.Properties[n], path.Join(suri(prefix, name), "properties"), n) ==> k in dom(s.references.schemas) && k in dom(s.references.allRefs))
+//@   loop 5: invariant (forall n in dom(schema.PatternProperties) :: forall k string :: forall r spec.Ref :: schRef(k, r, schema.PatternProperties[n], path.Join(suri(prefix, name), "patternProperties"), n) ==> k in dom(s.references.schemas) && k in dom(s.references.allRefs))
+//@   loop 5: invariant (forall i in 0..len(schema.AllOf) :: forall k string :: forall r spec.Ref :: schRef(k, r, schema.AllOf[i], path.Join(suri(prefix, name), "allOf"), strconv.Itoa(i)) ==> k in dom(s.references.schemas) && k in dom(s.references.allRefs))
+//@   loop 5: invariant (forall i in 0..idx :: forall k string :: forall r spec.Ref :: schRef(k, r, schema.AnyOf[i], path.Join(suri(prefix, name), "anyOf"), strconv.Itoa(i)) ==> k in dom(s.references.schemas) && k in dom(s.references.allRefs))
+//@   loop 6: invariant forall k string :: old(k in dom(s.references.schemas)) ==> k in dom(s.references.schemas)
+//@   loop 6: invariant forall k string :: old(k in dom(s.references.allRefs)) ==> k in dom(s.references.allRefs)
+//@   loop 6: invariant schema.Ref.String() != "" ==> ("#" + suri(prefix, name)) in dom(s.references.schemas) && ("#" + suri(prefix, name)) in dom(s.references.allRefs)
+//@   loop 6: invariant (forall n in dom(schema.Definitions) :: forall k string :: forall r spec.Ref :: schRef(k, r, schema.Definitions[n], path.Join(suri(prefix, name), "definitions"), n) ==> k in dom(s.references.schemas) && k in dom(s.references.allRefs))
+//@   loop 6: invariant (forall n in dom(schema.Properties) :: forall k string :: forall r spec.Ref :: schRef(k, r, schema.Properties[n], path.Join(suri(prefix, name), "properties"), n) ==> k in dom(s.references.schemas) && k in dom(s.references.allRefs))
+//@   loop 6: invariant (forall n in dom(schema.PatternProperties) :: forall k string :: forall r spec.Ref :: schRef(k, r, schema.PatternProperties[n], path.Join(suri(prefix, name), "patternProperties"), n) ==> k in dom(s.references.schemas) && k in dom(s.references.allRefs))
+//@   loop 6: invariant (forall i in 0..len(schema.AllOf) :: forall k string :: forall r spec.Ref :: schRef(k, r, schema.AllOf[i], path.Join(suri(prefix, name), "allOf"), strconv.Itoa(i)) ==> k in dom(s.references.schemas) && k in dom(s.references.allRefs))
+//@   loop 6: invariant (forall i in 0..len(schema.AnyOf) :: forall k string :: forall r spec.Ref :: schRef(k, r, schema.AnyOf[i], path.Join(suri(prefix, name), "anyOf"), strconv.Itoa(i)) ==> k in dom(s.references.schemas) && k in dom(s.references.allRefs))
+//@   loop 6: invariant (forall i in 0..idx :: forall k string :: forall r spec.Ref :: schRef(k, r, schema.OneOf[i], path.Join(suri(prefix, name), "oneOf"), strconv.Itoa(i)) ==> k in dom(s.references.schemas) && k in dom(s.references.allRefs))
+//@   loop 7: invariant forall k string :: old(k in dom(s.references.schemas)) ==> k in dom(s.references.schemas)
+//@   loop 7: invariant forall k string :: old(k in dom(s.references.allRefs)) ==> k in dom(s.references.allRefs)
+//@   loop 7: invariant schema.Ref.String() != "" ==> ("#" + suri(prefix, name)) in dom(s.references.schemas) && ("#" + suri(prefix, name)) in dom(s.references.allRefs)
+//@   loop 7: invariant (forall n in dom(schema.Definitions) :: forall k string :: forall r spec.Ref :: schRef(k, r, schema.Definitions[n], path.Join(suri(prefix, name), "definitions"), n) ==> k in dom(s.references.schemas) && k in dom(s.references.allRefs))
+//@   loop 7: invariant (forall n in dom(schema.Properties) :: forall k string :: forall r spec.Ref :: schRef(k, r, schema.Properties[n], path.Join(suri(prefix, name), "properties"), n) ==> k in dom(s.references.schemas) && k in dom(s.references.allRefs))
+//@   loop 7: invariant (forall n in dom(schema.PatternProperties) :: forall k string :: forall r spec.Ref :: schRef(k, r, schema.PatternProperties[n], path.Join(suri(prefix, name), "patternProperties"), n) ==> k in dom(s.references.schemas) && k in dom(s.references.allRefs))
+//@   loop 7: invariant (forall i in 0..len(schema.AllOf) :: forall k string :: forall r spec.Ref :: schRef(k, r, schema.AllOf[i], path.Join(suri(prefix, name), "allOf"), strconv.Itoa(i)) ==> k in dom(s.references.schemas) && k in dom(s.references.allRefs))
+//@   loop 7: invariant (forall i in 0..len(schema.AnyOf) :: forall k string :: forall r spec.Ref :: schRef(k, r, schema.AnyOf[i], path.Join(suri(prefix, name), "anyOf"), strconv.Itoa(i)) ==> k in dom(s.references.schemas) && k in dom(s.references.allRefs))
+//@   loop 7: invariant (forall i in 0..len(schema.OneOf) :: forall k string :: forall r spec.Ref :: schRef(k, r, schema.OneOf[i], path.Join(suri(prefix, name), "oneOf"), strconv.Itoa(i)) ==> k in dom(s.references.schemas) && k in dom(s.references.allRefs))
+//@   loop 7: invariant (schema.Not != nil ==> forall k string :: forall r spec.Ref :: schRef(k, r, *schema.Not, suri(prefix, name), "not") ==> k in dom(s.references.schemas) && k in dom(s.references.allRefs))
+//@   loop 7: invariant (schema.AdditionalProperties != nil && schema.AdditionalProperties.Schema != nil ==> forall k string :: forall r spec.Ref :: schRef(k, r, *schema.AdditionalProperties.Schema, suri(prefix, name), "additionalProperties") ==> k in dom(s.references.schemas) && k in dom(s.references.allRefs))
+//@   loop 7: invariant (schema.AdditionalItems != nil && schema.AdditionalItems.Schema != nil ==> forall k string :: forall r spec.Ref :: schRef(k, r, *schema.AdditionalItems.Schema, suri(prefix, name), "additionalItems") ==> k in dom(s.references.schemas) && k in dom(s.references.allRefs))
+//@   loop 7: invariant (schema.Items != nil && schema.Items.Schema != nil ==> forall k string :: forall r spec.Ref :: schRef(k, r, *schema.Items.Schema, suri(prefix, name), "items") ==> k in dom(s.references.schemas) && k in dom(s.references.allRefs))
+//@   loop 7: invariant schema.Items != nil
+//@   loop 7: invariant (forall i in 0..idx :: forall k string :: forall r spec.Ref :: schRef(k, r, schema.Items.Schemas[i], path.Join(suri(prefix, name), "items"), strconv.Itoa(i)) ==> k in dom(s.references.schemas) && k in dom(s.references.allRefs))
+
+// the items chain and operation parameters (generated by /verif/tools/gen_pe_contracts.py refs)
+//@ fun itRef(k string, p spec.Ref, items *spec.Items, prefix string, name string) bool = items != nil && ((k == "#" + path.Join(prefix, name) && p == items.Ref && p.String() != "") || itRef(k, p, items.Items, path.Join(prefix, name), name))
+
+//@ func (s *Spec) analyzeItems(name, items, prefix, location)
+//@   aspect refs
+//@   requires s != nil && idxMaps(s)
+//@   modifies map s.references.items, map s.references.headerItems, map s.references.parameterItems, map s.references.allRefs, map s.patterns.items, map s.patterns.allPatterns, map s.enums.items, map s.enums.allEnums
+//@   ensures forall k in dom(s.references.items) :: (old(k in dom(s.references.items)) && s.references.items[k] == old(s.references.items[k])) || itRef(k, s.references.items[k], items, prefix, name)
+//@   ensures forall k string :: forall p spec.Ref :: itRef(k, p, items, prefix, name) ==> k in dom(s.references.items) && k in dom(s.references.allRefs)
+//@   ensures forall k string :: old(k in dom(s.references.items)) ==> k in dom(s.references.items)
+//@   ensures forall k string :: old(k in dom(s.references.allRefs)) ==> k in dom(s.references.allRefs)
+
+//@ func (s *Spec) analyzeParameter(prefix, i, param)
+//@   aspect refs
+//@   requires s != nil && idxMaps(s)
+//@   modifies map s.references.parameters, map s.references.allRefs, map s.patterns.parameters, map s.patterns.allPatterns, map s.enums.parameters, map s.enums.allEnums, map s.references.items, map s.references.headerItems, map s.references.parameterItems, map s.patterns.items, map s.enums.items, map s.allSchemas, map s.allOfs, map s.references.schemas, map s.patterns.schemas, map s.enums.schemas
+//@   ensures param.Ref.String() != "" ==> pkey(prefix, i) in dom(s.references.parameters) && s.references.parameters[pkey(prefix, i)] == param.Ref && pkey(prefix, i) in dom(s.references.allRefs)
+//@   ensures forall k in dom(s.references.parameters) :: (old(k in dom(s.references.parameters)) && s.references.parameters[k] == old(s.references.parameters[k])) || (k == pkey(prefix, i) && param.Ref.String() != "" && s.references.parameters[k] == param.Ref)
+//@   ensures forall k string :: old(k in dom(s.references.parameters)) ==> k in dom(s.references.parameters)
+//@   ensures forall k string :: old(k in dom(s.references.allRefs)) ==> k in dom(s.references.allRefs)
+//@   ensures forall k string :: forall p spec.Ref :: itRef(k, p, param.Items, path.Join(prefix, "parameters", strconv.Itoa(i)), "items") ==> k in dom(s.references.items) && k in dom(s.references.allRefs)
